@@ -336,7 +336,7 @@ class Fn:
             self._mr = res
         return self._mr
 
-    def origins(self, start, passthru=CONVERSIONS, deep=False, stop=None, maxn=4000):
+    def origins(self, start, passthru=CONVERSIONS, deep=False, stop=None, maxn=4000, outflow=False):
         """Backward slice.  start: a local (int) or an operand dict.
         Returns a set of atoms:
           ('call', path, bb)   value produced by a call (declared path; resolved path also as ('callres', ...))
@@ -477,7 +477,7 @@ class Fn:
                 f = t.get("f", {})
                 if "path" in f:
                     atoms.add(("outparam", f["path"], bi))
-                    if deep:
+                    if outflow:
                         # data written through the &mut parameter derives from the other arguments
                         for a in t["args"]:
                             p = op_place(a)
